@@ -332,12 +332,48 @@ def rule_text(r, rng, respell=False, dotsperm=False):
     return "%s%s %s %s" % (p, r.opcode, cs, d)
 
 
+def conflict_table(rng):
+    """entries whose effect depends on their ORDER across the files of a list: a character that has both a definition and
+    a `base` rule with incompatible cells (the entry that comes first wins), a character defined twice, a rule defined
+    twice.  Returns (Tbl, index of the later conflicting entry)."""
+    tb = G.Tbl()
+    G.gen_alphabet(rng, tb, nletters=4, upper=False, digits=False, punct=False)
+    lows = [c for c in tb.chars() if c != 0x20 and tb.attrs.get(c) in ("lowercase", "letter")]
+    lo = rng.choice(lows)
+    up = 0x41 + (lo % 26) if not (0x41 <= lo <= 0x5a) else 0x5a
+    while up in tb.charcell:
+        up += 1
+    other = rng.choice([c for c in lows if c != lo] or lows)
+    cell = rng.choice([x for x in range(1, 64) if x != tb.charcell[lo]])
+    first = G.Rule("uppercase", [up], [cell])
+    second = G.Rule(None, raw="base uppercase %s %s" % (G.char_str(up), G.char_str(lo)))
+    if rng.random() < 0.5:
+        first, second = second, first
+    filler = [G.Rule("always", [lo, other], [rng.randint(1, 63), rng.randint(1, 63)]),
+              G.Rule("sign", [0x2a], [rng.randint(1, 63)]), G.Rule("always", [other, lo], [rng.randint(1, 63)])]
+    rng.shuffle(filler)
+    k = rng.randint(0, len(filler))
+    tb.rules += [first] + filler[:k] + [second] + filler[k:]
+    tb.charcell[up] = cell
+    tb.attrs[up] = "uppercase"
+    tb.upper[lo] = up
+    return tb, tb.rules.index(second), [[up, other], [lo, other], [up, up, other, lo], [other, up]]
+
+
 def gen_job(jid, rng, kind):
-    tb = G.gen_table(rng, kind)
+    extra_inputs = []
+    forced_cut = None
+    if kind == "conflict":
+        tb, forced_cut, extra_inputs = conflict_table(rng)
+    else:
+        tb = G.gen_table(rng, kind)
     job = Job(jid, "generated-" + kind, "generated")
     rules = tb.rules
     nparts = rng.randint(1, 3)
     cuts = sorted(rng.sample(range(1, len(rules)), min(nparts - 1, max(len(rules) - 1, 0)))) if len(rules) > 1 else []
+    if forced_cut is not None:
+        # the later of the two conflicting entries is the FIRST line of a later file
+        cuts = sorted(set([forced_cut] + [c for c in cuts if c < forced_cut][:1]))
     bounds = [0] + cuts + [len(rules)]
     members = ["g%s-%d.ctb" % (jid, k) for k in range(len(bounds) - 1)]
 
@@ -346,6 +382,8 @@ def gen_job(jid, rng, kind):
                 for m, a, b in zip(members, bounds, bounds[1:])}
     files = render()
     build_variants(job, files, members, rng, generated=(render(respell=True), render(dotsperm=True)))
+    for u in extra_inputs:
+        job.inputs.append(("F", 4, u))
     for _ in range(8):
         job.inputs.append(("F", 4, G.rand_text(rng, tb, 10)))
     for _ in range(5):
@@ -426,7 +464,7 @@ def run(tier):
             jobs.append(j)
     ng = 150 if tier == "quick" else 3000
     for i in range(ng):
-        jobs.append(gen_job("%d" % i, rng, rng.choice(["f0", "multipass", "mixed"])))
+        jobs.append(gen_job("%d" % i, rng, rng.choice(["f0", "multipass", "mixed", "conflict"])))
     with ThreadPoolExecutor(common.NCPU) as ex:
         list(ex.map(lambda j: run_job(exe, j), jobs))
     dist = {"lists_shipped": sum(1 for j in jobs if j.kind == "shipped"), "tables_generated": ng, "variants": {},
